@@ -416,6 +416,15 @@ pub(crate) fn calculate_function(function: ExpressionFunction, argument: Complex
     }
 }
 
+/// Negate a complex number without producing negative zeros: the negation of the real number `1`
+/// is `-1+0i`, not `-1-0i`. The two compare equal, but they lie on opposite sides of the branch cut
+/// of `sqrt` and `^`, so that otherwise `sqrt(-1)` would evaluate to `-i`, and the literal `-1`
+/// would not denote the same value as the number `-1`.
+#[inline]
+pub(crate) fn negate(value: Complex64) -> Complex64 {
+    Complex64::new(0f64, 0f64) - value
+}
+
 /// Is this a small floating point number?
 #[inline(always)]
 fn is_small(x: f64) -> bool {
@@ -523,7 +532,7 @@ impl Expression {
                 use PrefixOperator::*;
                 let value = expression.evaluate(variables, memory_references)?;
                 if matches!(operator, Minus) {
-                    Ok(-value)
+                    Ok(negate(value))
                 } else {
                     Ok(value)
                 }
